@@ -441,4 +441,126 @@ Proof.
     { destruct (sdb_pending d1) as [|x rest] eqn:Ep.
       - destruct (shdrs_items (fst (fst (snd r)))); [|discriminate]. cbn [app] in Hsplit. rewrite Hsplit.
         split; [cbn; lia|intro H; contradiction].
-Show. Abort.
+      - rewrite <- Hp1 in Hb. inversion Hb as [|? ? Hx _]; subst.
+        destruct (write_progress d1 b x rest Ep Hx) as [W' HW]. fold r in HW. rewrite HW in Hsplit.
+        apply (f_equal (@length sitem)) in Hsplit. rewrite <- Hp1 in Hlen.
+        cbn [app length] in Hsplit, Hlen. rewrite app_length in Hsplit. split; [lia|intros _; cbn [length]; lia]. }
+    destruct Hshort as [Hshort _].
+    assert (Hfit2 : fits_empty (fst r) (map snd steps)).
+    { unfold fits_empty. eapply Forall_impl; [|exact Hrest]. intros b' Hb'.
+      rewrite <- Hp1, <- Hsplit in Hb'. apply Forall_app_r in Hb'. exact Hb'. }
+    destruct (IH (fst r) Hwf2 Hfit2 Hshort) as [IH1 IH2].
+    destruct (sdb_series (fst r) steps) as [fs d3] eqn:Es. cbn [fst snd concat] in *.
+    split; [rewrite IH1, Hsplit; exact Hp1|]. intros _.
+    destruct steps as [|s steps']; [|apply IH2; discriminate].
+    cbn [sdb_series] in Es. injection Es as <- <-.
+    cbn [length] in Hshort. destruct (sdb_pending (fst r)) eqn:Ep2; [|cbn in Hshort; lia].
+    destruct (snd (snd r)) eqn:Ec; [apply Hc1; reflexivity|]. exfalso. apply (Hc2 eq_refl). reflexivity.
+Qed.
+
+(* the series of a READ without interleaved updates *)
+Theorem series_exactly_once : forall budgets d,
+  sdb_wf d ->
+  fits_empty d budgets ->
+  (length (sdb_pending d) <= length budgets)%nat ->
+  concat (fst (sdb_series d (map (fun b => ([], b)) budgets))) = sdb_pending d.
+Proof.
+  intros budgets d Hwf Hfit Hlen.
+  apply snapshot; [exact Hwf|rewrite map_map; cbn [snd]; rewrite map_id; exact Hfit|rewrite map_length; exact Hlen].
+Qed.
+
+(* ---------------------------------------------------------------------------------------------- *)
+(* what is pending: exactly the existing points in range, ascending, frozen at selection time *)
+
+Lemma sorted_filter_keys (f : N * point -> bool) m : pmap_sorted m -> pmap_sorted (filter f m).
+Proof.
+  induction m as [|[k p] m IH]; intros Hs; cbn [filter]; [exact Hs|].
+  destruct (sorted_cons_inv _ _ _ Hs) as [Hs' Hall].
+  destruct (f (k, p)); [|apply IH; exact Hs'].
+  apply sorted_cons; [apply IH; exact Hs'|]. apply Forall_forall. intros kp Hkp.
+  apply filter_In in Hkp. rewrite Forall_forall in Hall. apply Hall, Hkp.
+Qed.
+
+Theorem pending_ascending_existing : forall maps q,
+  pmap_sorted (maps (q_type q)) ->
+  StronglySorted N.lt (map si_index (qitem_items maps q))
+  /\ (forall i, In i (map si_index (qitem_items maps q))
+                <-> (exists p, In (i, p) (maps (q_type q))) /\ q_start q <= i /\ i <= q_stop q)
+  /\ Forall (fun it => si_type it = q_type q) (qitem_items maps q).
+Proof.
+  intros maps q Hs. unfold qitem_items. rewrite map_map.
+  assert (Hidx : map (fun x => si_index (point_item (q_type q) (q_var q) x))
+                     (pmap_range (maps (q_type q)) (q_start q) (q_stop q))
+                 = map fst (pmap_range (maps (q_type q)) (q_start q) (q_stop q))) by (apply map_ext; reflexivity).
+  rewrite Hidx. split; [|split; [intro i; split|]].
+  - apply (sorted_filter_keys _ _ Hs).
+  - intros Hin. apply in_map_iff in Hin. destruct Hin as ([k p] & <- & Hkp). unfold pmap_range in Hkp.
+    apply filter_In in Hkp. destruct Hkp as [Hkp Hr]. unfold in_range in Hr. cbn [fst] in *.
+    apply andb_prop in Hr. destruct Hr as [Ha Hb]. apply N.leb_le in Ha, Hb.
+    repeat split; [exists p; exact Hkp|exact Ha|exact Hb].
+  - intros ((p & Hp) & Ha & Hb). apply in_map_iff. exists (i, p). split; [reflexivity|].
+    unfold pmap_range. apply filter_In. split; [exact Hp|]. unfold in_range. cbn [fst].
+    apply andb_true_iff. split; apply N.leb_le; assumption.
+  - apply Forall_forall. intros it Hit. apply in_map_iff in Hit. destruct Hit as (kp & <- & _). reflexivity.
+Qed.
+
+(* the point with `selected` replaced by `current` *)
+Definition freeze (kp : N * point) : N * point :=
+  (fst kp, mkPt (p_current (snd kp)) (p_current (snd kp)) (p_last_event (snd kp)) (p_config (snd kp))).
+
+Lemma range_of_select m a b : pmap_range (pmap_select m a b) a b = map freeze (pmap_range m a b).
+Proof.
+  unfold pmap_range, pmap_select. induction m as [|kp m IH]; cbn [map filter]; [reflexivity|].
+  destruct (in_range a b kp) eqn:Er.
+  - change (in_range a b (fst kp, _)) with (in_range a b kp). rewrite Er. cbn [map]. rewrite IH. reflexivity.
+  - rewrite Er. exact IH.
+Qed.
+
+(* selection copies current into selected: the new queue entry reports, for every existing point in
+   range, the value the point has NOW (requested variation, or the configured one; promoted) *)
+Theorem select_copies_current : forall d t v a b,
+  snd (sdb_select_type d t v (Some (a, b))) = 0 ->
+  let d' := fst (sdb_select_type d t v (Some (a, b))) in
+  sd_queue d' = sd_queue d ++ [mkQ t a b v]
+  /\ qitem_items (sd_maps d') (mkQ t a b v)
+     = map (fun kp => point_item t v (freeze kp)) (pmap_range (sd_maps d t) a b).
+Proof.
+  intros d t v a b. unfold sdb_select_type, sdb_push. cbn [sd_queue set_map sd_cap].
+  destruct (N.of_nat (length (sd_queue d)) =? sd_cap d); cbn [fst snd]; [intro H; discriminate H|]. intros _.
+  split; [reflexivity|]. unfold qitem_items. cbn [set_queue set_map sd_maps q_type q_start q_stop q_var].
+  rewrite ptype_eqb_refl, range_of_select, map_map. reflexivity.
+Qed.
+
+(* ---------------------------------------------------------------------------------------------- *)
+(* every reachable database is well formed *)
+
+Inductive sop :=
+| SAdd (t : ptype) (i : N) (cfg : pconfig)
+| SRemove (t : ptype) (i : N)
+| SUpdate (u : supd)
+| SSelect (h : static_header)
+| SWrite (budget : N)
+| SReset.
+
+Definition sdb_step (d : sdb) (op : sop) : sdb :=
+  match op with
+  | SAdd t i cfg => fst (sdb_add d t i cfg)
+  | SRemove t i => fst (sdb_remove d t i)
+  | SUpdate u => sdb_apply_upd d u
+  | SSelect h => fst (sdb_select d h)
+  | SWrite b => fst (sdb_write_hdrs d b)
+  | SReset => sdb_reset d
+  end.
+
+Theorem wf_reachable : forall ms c0 ops, sdb_wf (fold_left sdb_step ops (sdb_new ms c0)).
+Proof.
+  intros ms c0 ops. generalize (wf_new ms c0). generalize (sdb_new ms c0).
+  induction ops as [|op ops IH]; intros d Hwf; cbn [fold_left]; [exact Hwf|]. apply IH.
+  destruct op; cbn [sdb_step].
+  - apply wf_add; exact Hwf.
+  - apply wf_remove; exact Hwf.
+  - apply wf_update; exact Hwf.
+  - apply wf_select; exact Hwf.
+  - intro t. rewrite (proj1 (proj2 (write_splits_pending d budget Hwf))). apply Hwf.
+  - apply wf_set_queue; exact Hwf.
+Qed.
